@@ -41,8 +41,14 @@ Theorem C11_datatype_len : forall x, wf_datatype x = true -> blen (enc_datatype 
 Proof. exact datatype_blen. Qed.
 Print Assumptions C11_datatype_len.
 
-(* D10: variable-length datatype, header as the pinned tree writes it (class and version nibbles swapped,
-   type flags at bytes 8-11): the decoder does not return the encoded class / flags / base type *)
+(* variable-length datatypes (header layout written since /repo 71914eb; version comes back as 1) *)
+Theorem C11_vlen_roundtrip : forall x, wf_vlen x = true ->
+  dec_datatype (enc_datatype x) = Ok (proj_vlen x).
+Proof. exact vlen_roundtrip. Qed.
+Print Assumptions C11_vlen_roundtrip.
+
+(* D10, the defect this check found on the earlier tree: with the old header layout (class and version
+   nibbles swapped, type flags at bytes 8-11) the decoder does not return the encoded class / flags / base type *)
 Theorem C11_vlen_refuted :
   exists x, dt_class x = DT_VLEN /\ encok_datatype x = true /\
             match dec_datatype (enc_datatype_gen false x) with
@@ -51,13 +57,6 @@ Theorem C11_vlen_refuted :
             end.
 Proof. exact vlen_refuted. Qed.
 Print Assumptions C11_vlen_refuted.
-
-(* ... and under the repaired layout (notes/fixes of C12: standard header, base type at byte 8) it does;
-   Model.CodecType.vlen_header_repaired selects which of the two the tie compares with the Go code *)
-Theorem C11_vlen_repaired_roundtrip : forall x, wf_vlen x = true ->
-  dec_datatype (enc_datatype_gen true x) = Ok (proj_vlen x).
-Proof. exact vlen_repaired_roundtrip. Qed.
-Print Assumptions C11_vlen_repaired_roundtrip.
 
 (* attribute message, version 3 (little-endian size fields, as the writer produces them) *)
 Theorem C11_attribute_roundtrip : forall x, wf_attribute x = true ->
